@@ -128,6 +128,18 @@ for _pid, _only, _must in [
         explanation='Executable model of the actor runtime at handler granularity with scripted behaviours; invariants proved over every reachable state (all trees, all rule tables, all schedules of handler steps and outside operations); lock-step ties the model to the real system.',
     )
 
+PROPS['C20'] = dict(
+    modules=['Vivid.Props.C20'],
+    gens=[],
+    engines=[dict(name='actorsys', only=r'JOB-SURVIVES-OWNER|JOB-KEY-COLLISION|CANCEL-UNKNOWN|PANIC|FATAL', must_hit=['ev:sched-once', 'ev:sched-loop', 'ev:cancel:ok', 'ev:cancel:notfound', 'ev:sched-clear', 'ev:cron-invalid', 'sched-scenario']),
+             dict(name='schedrt', nomodel=True, must_hit=['rt:once', 'rt:loop-cancel', 'rt:owner-restarted', 'rt:owner-killed'])],
+    rule=AS_RULE + ' Scheduler scenarios: Once / Loop / Cron(valid|invalid) / Cancel / Clear with shared and reused references, references and actor names containing ":", kills and supervised restarts in between (delays of an hour: registries compared, nothing fires). '
+         'schedrt: seven real-time scenarios against go-quartz with a 40 ms unit and one-sided assertions (Once exactly once and not early, Loop stops after Cancel, nothing after Cancel / owner kill / owner restart, no dead letters, unknown Cancel, invalid cron), a failure is re-run twice in isolation before it is reported.',
+    trusted_base=AS_TRUST + ['go-quartz (job queue, triggers, cron parser, 100 ms outdated threshold) and the wall clock: observed, not modelled beyond a keyed job table'],
+    assumptions=AS_ASSUME[:1] + ['firing times are runtime behaviour: partial — the registry logic is proved/tied, firing is monitored'],
+    explanation='Job key injective in (path, reference); Clear/termination/restart remove exactly the actor\'s jobs; duplicate reference keeps one job; registries tied by lock-step; firing by a real-time monitor.',
+)
+
 # Text of level_claimed per property (MANIFEST); NOT_APPLICABLE: properties not claimed, with reason.
 LEVEL_TEXT = {}
 NOT_APPLICABLE = {}
